@@ -298,16 +298,21 @@ theorem disagg_spec_bridge {t out : List Cell} {res : Nat} {weights : Option (Li
   · exact .inr (disaggCore_spec hwf hws hcore)
 
 -- OPEN aggregate_disagg
---   aggregate tr (disaggregateExperience t res ws fields) {periodRes := (L, "month"), periodOrigin := first ps − 1 day}
---     = the cells of t with an observable sub-period, restricted to the selected fields, as CumulativeCells
--- Both halves exist at model level: `disagg_conserves` above (every group adds up to its cell and has
--- exactly the cell's observable sub-periods as periods) and C08's `aggPeriod_cell_spec` /
--- `aggPeriod_conserves` (every window cell is the sum of the cells re-labelled into it, totals per
--- evaluation date are kept). Missing: that the `walkUp` windows of `_aggregate_period` started at
--- `first ps − 1 day` coincide with the original periods (month arithmetic of `addMonths` composed with
--- itself on month-aligned dates), and the slice plumbing of `aggregateCum`. Checked on the
--- implementation (`aggregate(disaggregate_experience(t))` against `t`) by `Spec.C18.aggBackSpec` in
--- every run.
+--   aggregate tr out {periodRes := (L, "month"), periodOrigin := first ps − 1 day} = .ok back →
+--   back = the cells of t with an observable sub-period, restricted to the selected fields, as
+--   CumulativeCells (what `Spec.C18.aggBackSpec` checks on the implementation in every run)
+-- Available: `disagg_conserves` / `disaggCore_groups` (every group adds up to its cell and has exactly
+-- the cell's observable sub-periods as periods), `disagg_tiling` (those are whole-month blocks inside
+-- the cell's period), C08 `aggPeriod_cell_spec` (an aggregated cell is the sum of the cells
+-- re-labelled into its window) and `assignWindows_first` / `FirstWindow.unique` / `iterD_month_monthEnd`
+-- (a cell goes to the first window whose end is not before its start; month windows in closed form).
+-- Missing, in this order: (1) `anchorBefore` from the month-end origin `first ps − 1 day` returns the
+-- grid point `origin + j·L` just before the slice's first period (`walkDown` exits at once) — needs
+-- all period starts on ONE `L`-grid from the origin (an extra well-formedness); (2) hence every
+-- sub-period cell of `c` is re-labelled to exactly `(c.ps, c.pe)`; (3) hence the `key3` piles are the
+-- groups, and with `(x.getV f).at i = cellField x f i` (distinct keys, in-range index) the summed
+-- values are `cellField c f i`; (4) slices of the disaggregated triangle vs. the per-slice groups and
+-- `sumTriangles` (permutation plumbing of `aggregateCum`, stability of the coordinate sort).
 
 /-! ### 3. accident_quarter_to_policy_year -/
 
